@@ -25,6 +25,14 @@ pub struct Output<'a> {
     capture_stack: Vec<Option<String>>,
 }
 
+#[cfg(feature = "verif_hooks")]
+impl Output<'_> {
+    /// Output capture depth, for the verification probes.
+    pub(crate) fn verif_capture_depth(&self) -> usize {
+        self.capture_stack.len()
+    }
+}
+
 impl<'a> Output<'a> {
     /// Creates a new output.
     pub(crate) fn new(w: &'a mut (dyn fmt::Write + 'a)) -> Self {
